@@ -1,7 +1,15 @@
 import layers
+import raychk
 import switches
 
 
 def check(rep, tier, replay=None):
     switches.run(rep, "C05")
     layers.run(rep, 2)
+    rep.explanations.append(
+        "Rule T (engine R, lib/rays.py): the tangent input is abstracted as a = t*a0 along rational rays; the optimized IR of the witness is "
+        "interpreted in the domain of truncated power series in t over exact rationals, and the closed-form path must reproduce the "
+        "defining series coefficient by coefficient to order 8 (d2r_exp(a) contracted with a second rational direction b = d/ds of the dr_exp series at a + s b; d2r_expinv likewise through -J^-1 dJ J^-1); polynomial branches of small-angle switches may differ only "
+        "by terms below the tolerance at the largest t that selects them.  A mismatch is a definite violation; agreement along the rays "
+        "examined is a necessary condition of the identity for all a (not a proof).  Rounding is not modelled.")
+    raychk.run(rep, tier, "C05", ["d2rexp", "d2rinv"], 1e-5)
